@@ -18,6 +18,14 @@ PRESENTATION_PREFIXES = (
 )
 
 
+# statements of a real method verified on their own (see Source.get_block)
+BLOCKS = {
+    "BaseProject.__allocate@placement": {
+        "host": "BaseProject.__allocate", "loop_iter": "ready_and_working_task_list",
+        "if_test": "task.target_component is not None", "params": ["self", "task", "target_workplace_id_list"]},
+}
+
+
 class ClassInfo:
     def __init__(self, name, module, node, bases):
         self.name = name
@@ -36,6 +44,7 @@ class Source:
         self.texts = {}
         self.classes = {}      # clsname -> ClassInfo
         self.functions = {}    # module-level function name -> (modname, FunctionDef)
+        self._blocks = {}
         self.load()
 
     def load(self):
@@ -90,8 +99,70 @@ class Source:
                 return c, ci.methods[name]
         return None, None
 
+    def get_block(self, qual):
+        """'Cls.method@tag': a statement of the real method, cut out mechanically on every run and wrapped as a function
+        whose parameters are the block's free local variables (checked).  Dropped by the extraction: the rest of the host
+        method (what runs before/after the block and the enclosing loop) - the block contract is about ONE execution of it."""
+        if qual in self._blocks:
+            return self._blocks[qual]
+        spec = BLOCKS[qual]
+        cls, hostname = spec["host"].split(".", 1)
+        defcls, host = self.find_method(cls, hostname)
+        if host is None:
+            raise KeyError(spec["host"])
+        found = []
+        for n in ast.walk(host):
+            if isinstance(n, ast.For) and ast.unparse(n.iter) == spec["loop_iter"]:
+                for st in n.body:
+                    if isinstance(st, ast.If) and ast.unparse(st.test) == spec["if_test"]:
+                        found.append((n, st))
+        if len(found) != 1:
+            raise KeyError("block %s: expected exactly one `if %s` in the loop over %s of %s, found %d"
+                           % (qual, spec["if_test"], spec["loop_iter"], spec["host"], len(found)))
+        loop, stmt = found[0]
+        # free local variables of the block = names it loads that the host assigns (parameters, loop targets, locals)
+        host_locals = {a.arg for a in host.args.args}
+        for n in ast.walk(host):
+            if isinstance(n, ast.Name) and isinstance(n.ctx, ast.Store):
+                host_locals.add(n.id)
+        stored_in_block, free = set(), []
+        bound_by_comprehension = set()
+        for n in ast.walk(stmt):
+            if isinstance(n, ast.comprehension):
+                for t in ast.walk(n.target):
+                    if isinstance(t, ast.Name):
+                        bound_by_comprehension.add(t.id)
+            if isinstance(n, ast.Lambda):
+                bound_by_comprehension |= {a.arg for a in n.args.args}
+        for n in ast.walk(stmt):         # ast.walk is breadth-first; a conservative def-before-use test is enough here:
+            if isinstance(n, ast.Name) and isinstance(n.ctx, ast.Store):
+                stored_in_block.add(n.id)
+        first_use = {}
+        class V(ast.NodeVisitor):
+            def visit_Name(v, n):
+                first_use.setdefault(n.id, type(n.ctx).__name__)
+        V().visit(stmt)                  # depth-first, source order
+        for name, ctx in first_use.items():
+            if name in host_locals and ctx == "Load" and name not in bound_by_comprehension:
+                free.append(name)
+        if sorted(set(free) | {"self"}) != sorted(spec["params"]):
+            raise KeyError("block %s: free variables %r differ from the declared parameters %r" % (qual, sorted(free), sorted(spec["params"])))
+        for n in ast.walk(stmt):
+            if isinstance(n, (ast.Return, ast.Continue)):
+                raise KeyError("block %s contains return/continue of the host" % qual)
+        fn = ast.FunctionDef(name=qual.split(".", 1)[1],
+                             args=ast.arguments(posonlyargs=[], args=[ast.arg(arg=p) for p in spec["params"]], kwonlyargs=[],
+                                                kw_defaults=[], defaults=[]),
+                             body=[stmt], decorator_list=[], lineno=stmt.lineno, end_lineno=stmt.end_lineno, col_offset=0)
+        ast.fix_missing_locations(fn)
+        fn.lineno, fn.end_lineno = stmt.lineno, stmt.end_lineno
+        self._blocks[qual] = (defcls, fn)
+        return defcls, fn
+
     def get_function(self, qual):
         """qual: 'BaseTask.perform' or 'sort_task_list' (module-level)."""
+        if "@" in qual:
+            return self.get_block(qual)
         if "." in qual:
             cls, name = qual.split(".", 1)
             c, fn = self.find_method(cls, name)
